@@ -13,11 +13,20 @@
      fuel the model passes (termination is thereby PROVED, not assumed).
      [spec_step], [accepts]  the reference multiset machine = the specification (C03_Model.v)
 
+   Histories run over THREE heap variables (C03_Model.v: h0 = the heap operated
+   on, h1 = the argument of Merge/Meld, h2 = the receiver of the last Merge/Meld)
+   so that "Merge leaves both inputs intact, Meld empties them" is a statement
+   about heaps that stay in use afterwards.
+
+   Naming: [_refuted] = a witness that the clause FAILS on the code as shipped
+   (mirrored by the model); [_partial] = the strongest true part of a clause
+   that is refuted in general; everything else is proved at full strength.
+
    Only statements here; proofs are in C03_Proofs.v, C03_ProofsOps.v,
-   C03_ProofsHist.v, C03_ProofsWire.v. *)
+   C03_ProofsHist.v, C03_ProofsMore.v, C03_ProofsWire.v. *)
 
 From Coq Require Import Permutation Sorted.
-From Gogu Require Import Base C03_Model C03_Proofs C03_ProofsOps C03_ProofsHist C03_Wire C03_ProofsWire.
+From Gogu Require Import Base C03_Model C03_Proofs C03_ProofsOps C03_ProofsHist C03_ProofsMore C03_Wire C03_ProofsWire.
 Local Open Scope nat_scope.
 
 Definition dec_eq {A} (eqb : A -> A -> bool) : Prop := forall x y, eqb x y = true <-> x = y.
@@ -110,9 +119,64 @@ Theorem C03_from_slice_ok : forall (A : Type) (zero : A) (l : list A) (c : A -> 
 Proof. exact (fun A zero l c => from_slice_spec zero l c). Qed.
 Print Assumptions C03_from_slice_ok.
 
+(* Convert on a heap of 0 or 1 elements (fresh, cleared, drained, melded away):
+   the comparator IS installed and the array is untouched — for ANY comparator.
+   (Go's loop bound (size-2)/2 truncates to -1 / 0 there; a guard "nothing to
+   reorder" placed before [h.comp = comp] would break exactly this.) *)
+Theorem C03_convert_small : forall (A : Type) (h : heap (A := A)) (c : A -> A -> bool),
+  length (data h) <= 1 -> convert h c = Ok (mkHeap (data h) c).
+Proof. exact (fun A h c => convert_small h c). Qed.
+Print Assumptions C03_convert_small.
+
+(* ... and the pushes that follow are ordered by the NEW comparator: after
+   Convert(c) on such a heap and Push(vs...), Peek/Pop return an element no held
+   element precedes under c *)
+Theorem C03_convert_small_then_push : forall (A : Type) (zero : A) (h : heap (A := A)) (c : A -> A -> bool) (vs : list A),
+  SWO c -> length (data h) <= 1 ->
+  exists h1 l', convert h c = Ok h1 /\ push h1 vs = Ok (mkHeap l' c) /\
+                Permutation (data h ++ vs) l' /\ heap_ok zero c l' /\
+                forall y, In y l' -> c y (get zero l' 0) = false.
+Proof.
+  intros A zero h c vs Hc Hs. exists (mkHeap (data h) c).
+  destruct (push_spec zero vs (mkHeap (data h) c) Hc) as (l' & E & Hp & Hok). cbn [data comp] in *.
+  exists l'. split; [now apply convert_small|]. split; [exact E|]. split; [exact Hp|].
+  assert (Hk : heap_ok zero c l') by (apply Hok; now apply heap_ok_small).
+  split; [exact Hk|]. intros y Hy. now apply (peek_extremal zero).
+Qed.
+Print Assumptions C03_convert_small_then_push.
+
+(* FUEL.  The model's loops carry fuel; [Ok] in the theorems above means the fuel
+   the model passes suffices.  The answer does not depend on it: any larger
+   fuel gives the same answer, for ANY comparator — so an [Ok] is the result of
+   Go's unbounded loop (FromSlice's two loops, moveDown, moveUp). *)
+Theorem C03_fuel_irrelevant : forall (A : Type) (c : A -> A -> bool),
+  (forall f f' (i : Z) (l r : list A), fs_outer c f i l = Ok r -> f <= f' -> fs_outer c f' i l = Ok r) /\
+  (forall f f' n i (l r : list A), move_down c f n i l = Ok r -> f <= f' -> move_down c f' n i l = Ok r) /\
+  (forall f f' i (l r : list A), move_up c f i l = Ok r -> f <= f' -> move_up c f' i l = Ok r).
+Proof.
+  intros A c. split; [|split].
+  - exact (fs_outer_ok_more c).
+  - exact (move_down_ok_more c).
+  - exact (move_up_ok_more c).
+Qed.
+Print Assumptions C03_fuel_irrelevant.
+
+(* The strict-order hypothesis is NEEDED for termination (this is about the
+   domain of the property, not a defect): with the reflexive comparator <=,
+   NewHeap(<=).Push(1) spins in moveUp at the root and FromSlice([1 1 1], <=)
+   spins in its clobbered outer loop — out of fuel for EVERY fuel. *)
+Theorem C03_nonstrict_comparator_diverges :
+  (forall fuel, move_up Z.leb fuel 0 [1%Z] = Err oof) /\
+  (forall fuel, fs_outer Z.leb fuel (Z.of_nat (3 / 2) - 1)%Z [1; 1; 1]%Z = Err oof).
+Proof.
+  split; [exact move_up_leb_diverges|]. intros fuel. exact (proj1 (fs_outer_leb_diverges fuel)).
+Qed.
+Print Assumptions C03_nonstrict_comparator_diverges.
+
 (* Merge: a fresh ordered heap under the receiver's comparator holding the
-   elements of both; the model's inputs are values, so they are intact by
-   construction — [step] below returns them unchanged and the harness observes it *)
+   elements of both.  In the model heaps are values, so the inputs cannot
+   change; what [step] does with them is stated in C03_merge_step below and the
+   harness observes receiver, argument and result again after later operations *)
 Theorem C03_merge_ok : forall (A : Type) (zero : A) (h h2 : heap (A := A)),
   SWO (comp h) ->
   exists l', merge h h2 = Ok (mkHeap l' (comp h)) /\
@@ -127,6 +191,30 @@ Theorem C03_meld_ok : forall (A : Type) (zero : A) (h h2 : heap (A := A)),
              Permutation (data h ++ data h2) l' /\ heap_ok zero (comp h) l'.
 Proof. exact (fun A zero h h2 => meld_spec zero h h2). Qed.
 Print Assumptions C03_meld_ok.
+
+(* Merge / Meld as history steps: Merge leaves BOTH inputs exactly as they were
+   (the argument stays h1, the receiver is kept as h2) and reports their
+   contents; Meld leaves both EMPTY with their comparators; the result is h0 *)
+Theorem C03_merge_step : forall (A : Type) (zero : A) (eqb : A -> A -> bool) (h0 h1 h2 : heap (A := A)),
+  SWO (comp h0) ->
+  exists l', step zero eqb (h0, h1, h2) OMerge = ((mkHeap l' (comp h0), h1, h0), RTwo (data h0) (data h1)) /\
+             Permutation (data h0 ++ data h1) l' /\ heap_ok zero (comp h0) l'.
+Proof.
+  intros A zero eqb h0 h1 h2 Hc. destruct (merge_spec zero h0 h1 Hc) as (l' & E & Hp & Hk).
+  exists l'. cbn [step]. rewrite E. auto.
+Qed.
+Print Assumptions C03_merge_step.
+
+Theorem C03_meld_step : forall (A : Type) (zero : A) (eqb : A -> A -> bool) (h0 h1 h2 : heap (A := A)),
+  SWO (comp h0) ->
+  exists l', step zero eqb (h0, h1, h2) OMeld =
+               ((mkHeap l' (comp h0), mkHeap [] (comp h1), mkHeap [] (comp h0)), RTwo [] []) /\
+             Permutation (data h0 ++ data h1) l' /\ heap_ok zero (comp h0) l'.
+Proof.
+  intros A zero eqb h0 h1 h2 Hc. destruct (meld_spec zero h0 h1 Hc) as (l' & E & Hp & Hk).
+  exists l'. cbn [step]. rewrite E. auto.
+Qed.
+Print Assumptions C03_meld_step.
 
 (* ====================================================================== *)
 (* Delete                                                                  *)
@@ -195,6 +283,26 @@ Proof.
 Qed.
 Print Assumptions C03_delete_root_or_last_benign.
 
+(* ... so: deleting the ROOT value, or a value whose first occurrence sits in the
+   LAST slot, keeps the heap ordered (and removes exactly one occurrence) *)
+Theorem C03_delete_root_or_last_keeps_order : forall (A : Type) (zero : A) (eqb : A -> A -> bool),
+  dec_eq eqb -> forall (h : heap (A := A)) v idx,
+  SWO (comp h) -> heap_ok zero (comp h) (data h) ->
+  get_index eqb (data h) v = Some idx -> idx = 0 \/ idx = length (data h) - 1 ->
+  exists l', delete eqb h v = Ok (true, 0%Z, mkHeap l' (comp h)) /\
+             Permutation (data h) (v :: l') /\ heap_ok zero (comp h) l'.
+Proof.
+  intros A zero eqb H h v idx Hc Hok Hidx Hpos.
+  assert (Hin : In v (data h)).
+  { pose proof (get_index_spec zero eqb H (data h) v) as G. rewrite Hidx in G.
+    destruct G as (Hi & Hg & _). rewrite <- Hg. now apply nth_In. }
+  destruct (delete_present zero eqb H h v Hin) as (idx' & l' & Hidx' & E & Hp & Hk).
+  exists l'. split; [exact E|]. split; [exact Hp|]. apply Hk; auto.
+  rewrite Hidx in Hidx'. injection Hidx' as <-.
+  destruct Hpos as [-> | ->]; [now apply del_array_root | now apply del_array_last].
+Qed.
+Print Assumptions C03_delete_root_or_last_keeps_order.
+
 (* defect #20 (KNOWN FINDING, pinned by TestHeap_MaxHeap): the min-heap built
    from 1..8, Delete(2): the result [1;8;3;4;5;6;7] violates heap order (4 at index 3 under 8)
    and the following Pops yield 1 3 6 5 4 7 8 — rejected by the specification *)
@@ -203,16 +311,18 @@ Theorem C03_delete_breaks_order_refuted :
     heap_ok 0%Z Z.ltb l /\
     delete Z.eqb (mkHeap l Z.ltb) v = Ok (true, 0%Z, mkHeap l' Z.ltb) /\
     (exists j, 0 < j < length l' /\ Z.ltb (get 0%Z l' j) (get 0%Z l' (parent j)) = true) /\
-    accepts 0%Z Z.eqb true (mkS l Z.ltb, mkS [] Z.ltb)
+    inner_delete Z.eqb l v = true /\
+    accepts 0%Z Z.eqb true (mkS l Z.ltb, mkS [] Z.ltb, mkS [] Z.ltb)
       (combine [ODelete v; OPop; OPop; OPop]
-               (fst (run 0%Z Z.eqb (mkHeap l Z.ltb, mkHeap [] Z.ltb) [ODelete v; OPop; OPop; OPop]))) = false.
+               (fst (run 0%Z Z.eqb (mkHeap l Z.ltb, mkHeap [] Z.ltb, mkHeap [] Z.ltb) [ODelete v; OPop; OPop; OPop]))) = false.
 Proof.
   exists [1; 2; 3; 4; 5; 6; 7; 8]%Z, 2%Z, [1; 8; 3; 4; 5; 6; 7]%Z.
-  split; [|split; [|split]].
+  split; [|split; [|split; [|split]]].
   - intros j H0 Hj _. cbn in Hj.
     do 8 (destruct j as [|j]; [try lia; reflexivity|]). lia.
   - vm_compute. reflexivity.
   - exists 3. vm_compute. repeat split; lia.
+  - vm_compute. reflexivity.
   - vm_compute. reflexivity.
 Qed.
 Print Assumptions C03_delete_breaks_order_refuted.
@@ -250,13 +360,34 @@ Proof.
 Qed.
 Print Assumptions C03_sort_max_heap_ascending.
 
+(* the min-heap comparator < gives DESCENDING order *)
+Theorem C03_sort_min_heap_descending : forall (l : list Z),
+  exists r, sort l Z.ltb = Ok r /\ Permutation l r /\ StronglySorted Z.ge r.
+Proof. exact (fun l => sort_by_key_asc_cmp 0%Z (fun x : Z => x) l). Qed.
+Print Assumptions C03_sort_min_heap_descending.
+
+(* comparators BY KEY on any element type (structs): elements with equal keys
+   TIE; the result is a permutation of the input — every tied element is kept
+   with its own payload — with keys ascending for "key a > key b" (max-heap by
+   key) and descending for "key a < key b".  Nothing is claimed about the
+   relative order of tied elements (heapsort is not stable). *)
+Theorem C03_sort_by_key : forall (A : Type) (zero : A) (key : A -> Z) (l : list A),
+  (exists r, sort l (fun a b => (key a >? key b)%Z) = Ok r /\ Permutation l r /\
+             StronglySorted (fun a b => (key a <= key b)%Z) r) /\
+  (exists r, sort l (fun a b => (key a <? key b)%Z) = Ok r /\ Permutation l r /\
+             StronglySorted (fun a b => (key a >= key b)%Z) r).
+Proof.
+  intros A zero key l. split; [apply (sort_by_key_desc_cmp zero) | apply (sort_by_key_asc_cmp zero)].
+Qed.
+Print Assumptions C03_sort_by_key.
+
 (* ====================================================================== *)
 (* histories                                                               *)
 (* ====================================================================== *)
 
 (* C03_history.  Run ANY sequence of Push, Pop, Peek, Clear, Convert, Delete,
-   Size, IsEmpty, GetValues, FromSlice, Merge, Meld (and exchanging the two heap
-   variables) from two empty heaps, all comparators being strict weak orders.
+   Size, IsEmpty, GetValues, FromSlice, Merge, Meld (and exchanging the heap
+   variables) from three empty heaps, all comparators being strict weak orders.
    Then the model and the reference multiset machine stay in step for the whole
    history ([hist_ok]): every output is one the specification permits — sizes,
    emptiness, value multisets, Delete's verdict, Merge leaving both inputs
@@ -266,13 +397,16 @@ Print Assumptions C03_sort_max_heap_ascending.
    precedes.  A heap variable becomes tainted only by a successful Delete that
    is not benign (victim neither root nor last slot and the moved element does
    not fit the hole: defect #20) and is clean again after Clear, Convert,
-   FromSlice, Merge, Meld or when at most one element is left. *)
+   FromSlice, Meld or when at most one element is left; Merge gives a clean
+   result and parks the receiver, taint included, in the third variable; the
+   taint travels with the heap under Swap / Swap2. *)
 Theorem C03_history : forall (A : Type) (zero : A) (eqb : A -> A -> bool),
-  dec_eq eqb -> forall (c0 c1 : A -> A -> bool) (ops : list (op (A := A))),
-  SWO c0 -> SWO c1 -> Forall op_swo ops ->
-  hist_ok zero eqb (new_heap c0, new_heap c1) (mkS [] c0, mkS [] c1) (false, false) ops = true.
+  dec_eq eqb -> forall (c0 c1 c2 : A -> A -> bool) (ops : list (op (A := A))),
+  SWO c0 -> SWO c1 -> SWO c2 -> Forall op_swo ops ->
+  hist_ok zero eqb (new_heap c0, new_heap c1, new_heap c2) (mkS [] c0, mkS [] c1, mkS [] c2)
+          (false, false, false) ops = true.
 Proof.
-  intros A zero eqb H c0 c1 ops H0 H1 Hf.
+  intros A zero eqb H c0 c1 c2 ops H0 H1 H2 Hf.
   apply (hist_ok_all zero eqb H); auto. now apply rel_init.
 Qed.
 Print Assumptions C03_history.
@@ -280,39 +414,60 @@ Print Assumptions C03_history.
 (* conservation for EVERY history, Deletes of any kind included: the trace of
    the model is accepted by the multiset machine without the order requirement *)
 Theorem C03_history_conservation : forall (A : Type) (zero : A) (eqb : A -> A -> bool),
-  dec_eq eqb -> forall (c0 c1 : A -> A -> bool) (ops : list (op (A := A))),
-  SWO c0 -> SWO c1 -> Forall op_swo ops ->
-  accepts zero eqb false (mkS [] c0, mkS [] c1)
-    (combine ops (fst (run zero eqb (new_heap c0, new_heap c1) ops))) = true.
+  dec_eq eqb -> forall (c0 c1 c2 : A -> A -> bool) (ops : list (op (A := A))),
+  SWO c0 -> SWO c1 -> SWO c2 -> Forall op_swo ops ->
+  accepts zero eqb false (mkS [] c0, mkS [] c1, mkS [] c2)
+    (combine ops (fst (run zero eqb (new_heap c0, new_heap c1, new_heap c2) ops))) = true.
 Proof.
-  intros A zero eqb H c0 c1 ops H0 H1 Hf.
-  apply (history_conservation zero eqb H) with (t := (false, false)); auto. now apply rel_init.
+  intros A zero eqb H c0 c1 c2 ops H0 H1 H2 Hf.
+  apply (history_conservation zero eqb H) with (t := (false, false, false)); auto. now apply rel_init.
 Qed.
 Print Assumptions C03_history_conservation.
 
 (* the whole property, order included, for every history in which h0 is never
    tainted when an operation starts ... *)
 Theorem C03_history_order : forall (A : Type) (zero : A) (eqb : A -> A -> bool),
-  dec_eq eqb -> forall (c0 c1 : A -> A -> bool) (ops : list (op (A := A))),
-  SWO c0 -> SWO c1 -> Forall op_swo ops ->
-  untainted zero eqb (new_heap c0, new_heap c1) (false, false) ops = true ->
-  accepts zero eqb true (mkS [] c0, mkS [] c1)
-    (combine ops (fst (run zero eqb (new_heap c0, new_heap c1) ops))) = true.
+  dec_eq eqb -> forall (c0 c1 c2 : A -> A -> bool) (ops : list (op (A := A))),
+  SWO c0 -> SWO c1 -> SWO c2 -> Forall op_swo ops ->
+  untainted zero eqb (new_heap c0, new_heap c1, new_heap c2) (false, false, false) ops = true ->
+  accepts zero eqb true (mkS [] c0, mkS [] c1, mkS [] c2)
+    (combine ops (fst (run zero eqb (new_heap c0, new_heap c1, new_heap c2) ops))) = true.
 Proof.
-  intros A zero eqb H c0 c1 ops H0 H1 Hf Hu.
-  apply (history_order zero eqb H) with (t := (false, false)); auto. now apply rel_init.
+  intros A zero eqb H c0 c1 c2 ops H0 H1 H2 Hf Hu.
+  apply (history_order zero eqb H) with (t := (false, false, false)); auto. now apply rel_init.
 Qed.
 Print Assumptions C03_history_order.
 
-(* ... in particular for every history without Delete *)
-Theorem C03_history_without_delete : forall (A : Type) (zero : A) (eqb : A -> A -> bool),
-  dec_eq eqb -> forall (c0 c1 : A -> A -> bool) (ops : list (op (A := A))),
-  SWO c0 -> SWO c1 -> Forall op_swo ops -> Forall not_delete ops ->
-  accepts zero eqb true (mkS [] c0, mkS [] c1)
-    (combine ops (fst (run zero eqb (new_heap c0, new_heap c1) ops))) = true.
+(* ... in particular for every history WITHOUT AN INNER SUCCESSFUL DELETE: every
+   Delete of the history either fails (value absent / heap empty) or removes a
+   value whose first occurrence is the root or the last slot of the array at
+   that moment ([no_inner_delete], decided along the run of the model).  Then
+   the complete property C03 — order and conservation — holds for the whole
+   history.  This is the exact boundary of defect #20: the refutation witness
+   above is one inner Delete. *)
+Theorem C03_history_no_inner_delete : forall (A : Type) (zero : A) (eqb : A -> A -> bool),
+  dec_eq eqb -> forall (c0 c1 c2 : A -> A -> bool) (ops : list (op (A := A))),
+  SWO c0 -> SWO c1 -> SWO c2 -> Forall op_swo ops ->
+  no_inner_delete zero eqb (new_heap c0, new_heap c1, new_heap c2) ops = true ->
+  accepts zero eqb true (mkS [] c0, mkS [] c1, mkS [] c2)
+    (combine ops (fst (run zero eqb (new_heap c0, new_heap c1, new_heap c2) ops))) = true.
 Proof.
-  intros A zero eqb H c0 c1 ops H0 H1 Hf Hn.
-  apply (history_order zero eqb H) with (t := (false, false)); auto.
+  intros A zero eqb H c0 c1 c2 ops H0 H1 H2 Hf Hn.
+  apply (history_order zero eqb H) with (t := (false, false, false)); auto.
+  - now apply rel_init.
+  - now apply no_inner_untainted.
+Qed.
+Print Assumptions C03_history_no_inner_delete.
+
+(* ... and for every history without Delete at all *)
+Theorem C03_history_without_delete : forall (A : Type) (zero : A) (eqb : A -> A -> bool),
+  dec_eq eqb -> forall (c0 c1 c2 : A -> A -> bool) (ops : list (op (A := A))),
+  SWO c0 -> SWO c1 -> SWO c2 -> Forall op_swo ops -> Forall not_delete ops ->
+  accepts zero eqb true (mkS [] c0, mkS [] c1, mkS [] c2)
+    (combine ops (fst (run zero eqb (new_heap c0, new_heap c1, new_heap c2) ops))) = true.
+Proof.
+  intros A zero eqb H c0 c1 c2 ops H0 H1 H2 Hf Hn.
+  apply (history_order zero eqb H) with (t := (false, false, false)); auto.
   - now apply rel_init.
   - now apply no_delete_untainted.
 Qed.
@@ -320,12 +475,12 @@ Print Assumptions C03_history_without_delete.
 
 (* no operation of any history panics or fails to terminate within its fuel *)
 Theorem C03_history_no_panic : forall (A : Type) (zero : A) (eqb : A -> A -> bool),
-  dec_eq eqb -> forall (c0 c1 : A -> A -> bool) (ops : list (op (A := A))),
-  SWO c0 -> SWO c1 -> Forall op_swo ops ->
-  Forall (fun r => r <> RPanic /\ r <> ROof) (fst (run zero eqb (new_heap c0, new_heap c1) ops)).
+  dec_eq eqb -> forall (c0 c1 c2 : A -> A -> bool) (ops : list (op (A := A))),
+  SWO c0 -> SWO c1 -> SWO c2 -> Forall op_swo ops ->
+  Forall (fun r => r <> RPanic /\ r <> ROof) (fst (run zero eqb (new_heap c0, new_heap c1, new_heap c2) ops)).
 Proof.
-  intros A zero eqb H c0 c1 ops H0 H1 Hf.
-  apply (history_no_failure zero eqb H) with (sp := (mkS [] c0, mkS [] c1)) (t := (false, false)); auto.
+  intros A zero eqb H c0 c1 c2 ops H0 H1 H2 Hf.
+  apply (history_no_failure zero eqb H) with (sp := (mkS [] c0, mkS [] c1, mkS [] c2)) (t := (false, false, false)); auto.
   now apply rel_init.
 Qed.
 Print Assumptions C03_history_no_panic.
@@ -335,14 +490,21 @@ Print Assumptions C03_history_no_panic.
    comparators (<, >, by key ascending/descending) are strict weak orders *)
 Theorem C03_wire_histories : forall (c0 c1 : Z) (w : list Z) (ops : list (op (A := Z))),
   dec_ops (length w) w = Some ops ->
-  hist_ok 0%Z Z.eqb (new_heap (cmp_of c0), new_heap (cmp_of c1))
-          (mkS [] (cmp_of c0), mkS [] (cmp_of c1)) (false, false) ops = true.
+  hist_ok 0%Z Z.eqb (new_heap (cmp_of c0), new_heap (cmp_of c1), new_heap (cmp_of c1))
+          (mkS [] (cmp_of c0), mkS [] (cmp_of c1), mkS [] (cmp_of c1)) (false, false, false) ops = true.
 Proof.
   intros c0 c1 w ops H. apply (hist_ok_all 0%Z Z.eqb zeqb_spec).
   - apply rel_init; apply cmp_of_swo.
   - eapply dec_ops_swo; eauto.
 Qed.
 Print Assumptions C03_wire_histories.
+
+(* the wire judge decides sortedness on adjacent elements (linear); under the
+   harness's comparators that is the specification's all-pairs predicate *)
+Theorem C03_wire_sort_judge : forall (c : Z) (input result : list Z),
+  sort_ok_fast (cmp_of c) input result = sort_ok Z.eqb (cmp_of c) input result.
+Proof. exact sort_ok_fast_spec. Qed.
+Print Assumptions C03_wire_sort_judge.
 
 Theorem C03_wire_sort : forall (c : Z) (l : list Z),
   exists r, sort l (cmp_of c) = Ok r /\ sort_ok Z.eqb (cmp_of c) l r = true.
@@ -384,8 +546,27 @@ Qed.
 
 (* a history with a Delete that stays untainted, and one that gets tainted *)
 Example C03_untainted_example :
-  untainted 0%Z Z.eqb (new_heap Z.ltb, new_heap Z.gtb) (false, false)
+  untainted 0%Z Z.eqb (new_heap Z.ltb, new_heap Z.gtb, new_heap Z.gtb) (false, false, false)
     [OFromSlice Z.ltb [5; 3; 8; 1; 9; 2; 7]%Z; ODelete 1%Z; OPop; ODelete 9%Z; OPeek; OMerge; OPop] = true /\
-  untainted 0%Z Z.eqb (new_heap Z.ltb, new_heap Z.gtb) (false, false)
+  untainted 0%Z Z.eqb (new_heap Z.ltb, new_heap Z.gtb, new_heap Z.gtb) (false, false, false)
     [OFromSlice Z.ltb [1; 2; 3; 4; 5; 6; 7; 8]%Z; ODelete 2%Z; OPop] = false.
+Proof. vm_compute. auto. Qed.
+
+(* [no_inner_delete] is met by a non-trivial history that DOES delete — the root
+   of a 7-element heap, then the value in its last slot, with ties — and keeps
+   all three variables busy (Merge parks the receiver, Swap2 brings it back);
+   it fails on the refutation witness *)
+Example C03_no_inner_delete_example :
+  no_inner_delete 0%Z Z.eqb (new_heap Z.ltb, new_heap Z.gtb, new_heap Z.gtb)
+    [OFromSlice Z.ltb [5; 3; 8; 1; 9; 2; 7; 3]%Z; ODelete 1%Z; OPop; ODelete 8%Z; OPeek;
+     OSwap; OPush [4; 4]%Z; OSwap; OMerge; OPop; OSwap2; ODelete 9%Z; ODelete 2%Z; OPush [0]%Z; OPop] = true /\
+  no_inner_delete 0%Z Z.eqb (new_heap Z.ltb, new_heap Z.gtb, new_heap Z.gtb)
+    [OFromSlice Z.ltb [1; 2; 3; 4; 5; 6; 7; 8]%Z; ODelete 2%Z; OPop] = false.
+Proof. vm_compute. auto. Qed.
+
+(* heapsort on structs coded key*10+payload, ordered by key only: ties keep
+   their payloads; max-heap-by-key comparator gives keys ascending *)
+Example C03_sort_ties_example :
+  sort [21; 20; 10; 0; 21; 12; 10]%Z (cmp_of 3) = Ok [0; 10; 12; 10; 21; 20; 21]%Z /\
+  sort [21; 20; 10; 0; 21; 12; 10]%Z (cmp_of 2) = Ok [21; 21; 20; 10; 12; 10; 0]%Z.
 Proof. vm_compute. auto. Qed.
